@@ -93,6 +93,19 @@ func abstractInstant(i int) time.Time {
 	return time.Date(1999, 12, 31, 23, 59, 58, 0, time.UTC)
 }
 
+type flipStringer struct {
+	text  string
+	calls int
+}
+
+func (f *flipStringer) String() string {
+	f.calls++
+	if f.calls%2 == 1 {
+		return "ok"
+	}
+	return f.text
+}
+
 type safeString string // a value Go code marked safe (AsSafeValue)
 
 // concretise builds the Go value of an abstract value (for contexts and for ApplyFilter arguments).
@@ -145,6 +158,10 @@ func concretise(v AV) interface{} {
 		}
 		return st
 	case "stringer":
+		if v.N == 1 {
+			// a Stringer whose text differs from call to call: harmless on odd calls, the modelled text on even ones
+			return &flipStringer{text: atomsText(v.S)}
+		}
 		return vStringer{atomsText(v.S)}
 	case "fix":
 		return float64(v.N) / 1000
@@ -289,6 +306,8 @@ func printExpr(e interface{}) string {
 		return s + printChain(jlist(m["chain"]))
 	case "not":
 		return "(not " + printExpr(m["a"]) + ")"
+	case "neg":
+		return "-" + printExpr(m["a"])
 	case "bin":
 		return "(" + printExpr(m["a"]) + " " + jstr(m["op"]) + " " + printExpr(m["b"]) + ")"
 	case "call":
@@ -631,6 +650,18 @@ func cmdRenderReplay(args []string) {
 			rep.Skipped++
 			return
 		}
+		if problem == "" && v.Globals != nil && v.Err != "" {
+			// (the rules about the caller's context - keys that are no identifiers, keys that clash with an exported macro -
+			// hold for the template that is executed, also when it extends another one)
+			files := map[string]string{"/apibase": "base{% block zzb %}{% endblock %}"}
+			set := pongo2.NewSet("api", newMemLoader("api", files))
+			for k, gv := range v.Globals {
+				set.Globals[k] = concretise(gv)
+			}
+			if o := render(set, `{% extends "/apibase" %}`+src, buildContext(v.Ctx)); o.class() == "ok" {
+				problem = fmt.Sprintf("as a template that extends another one it executes (%q), specification: error (%s)", o.Out, v.Err)
+			}
+		}
 		if problem != "" {
 			kind := strings.Join(v.Tags, ",")
 			rep.viol(fmt.Sprintf("render[%s%s]: template %q: %s", v.M, kind, src, problem),
@@ -873,7 +904,7 @@ func cmdC02Replay(args []string) {
 		}
 		if problem != "" && !strings.HasPrefix(problem, "SKIP") {
 			diag++
-			if !strings.Contains(src, "{% for c") { // (iterating over the characters of a marker: the model's marker is one atom)
+			if !strings.Contains(src, "{% for c") && !strings.Contains(src, "fs") { // (iterating over the characters of a marker: the model's marker is one atom; fs: text differs per call)
 				diagOther++
 			}
 		}
